@@ -1060,7 +1060,7 @@ fn glyf_entry(len: usize, transformed: bool) -> TableDirectoryEntry {
     TableDirectoryEntry { tag: GLYF, offset: 0, orig_length: len as u32, transform_length: if transformed { Some(len as u32) } else { None } }
 }
 
-fn run_case(input: &str) -> String {
+pub fn run_case(input: &str) -> String {
     let p: Vec<&str> = input.split('|').collect();
     match p[0] {
         "p16" => {
@@ -1182,7 +1182,7 @@ fn damage(rng: &mut Rng, d: &mut Vec<u8>) {
     }
 }
 
-fn gen_case(rng: &mut Rng) -> String {
+pub fn gen_case(rng: &mut Rng) -> String {
     match rng.below(20) {
         0 | 1 => {
             if rng.chance(3, 4) {
